@@ -632,7 +632,8 @@ func canonLite(b *strings.Builder, v interface{}) {
 		rv := reflect.ValueOf(v)
 		switch rv.Kind() {
 		case reflect.Slice, reflect.Array:
-			b.WriteByte('[')
+			// (a typed Go slice is not what the library hands out for a list)
+			b.WriteString("<" + rv.Type().String() + ">[")
 			for i := 0; i < rv.Len(); i++ {
 				if i > 0 {
 					b.WriteByte(',')
